@@ -155,6 +155,17 @@ def kept(b):
     return all(out)
 
 
+def registered_as(b, key, image):
+    """the registry maps `key` to exactly this array"""
+    terms = []
+    for kk, v in b.attrs["_images"].items():
+        if v is image:
+            terms.append(True if kk is key else V.compare("==", key, kk))
+    if any(t is True for t in terms):
+        return True
+    return V.sor(*terms) if terms else False
+
+
 def new_keys(b):
     return [k for k in b.attrs["_images"] if not any(k is k0 for k0 in b.attrs["_ghost_keys"])]
 
@@ -190,24 +201,25 @@ class add_tomogram:
     """the tomogram is registered under an id no earlier tomogram has (generated when none is given), every earlier
     tomogram stays registered under its id, the earlier molecules keep their rows and image ids, and the new molecules
     follow them, all tagged with the new id; the caller's molecules object is not modified.
-    (An explicit id that is already registered is the caller's request to replace that tomogram: excluded by `requires`.)"""
+    `earlier_tomograms_kept` fails for an explicit id that is already registered (the earlier tomogram is silently
+    replaced and its molecules load from the new one): recorded known finding."""
     params = dict(self=TRegistry(), image=T.Arr(3, "real"), molecules=__import__("contracts.common", fromlist=["TMolecules"]).TMolecules(features=["f0"]),
                   image_id=T.OneOf(None, T.Int(lo=0)))
-    requires = ["image_id is None or not registered_before(self, image_id)",
-                # representation invariant of a batch: every molecule's image id is a registered id
+    requires = [# representation invariant of a batch: every molecule's image id is a registered id
                 "forall(lambda i: registered_before(self, ids(self)[i]), (0, self._molecules._pos.shape[0]))"]
-    helpers = dict(registered_before=registered_before, kept=kept, new_keys=new_keys, new_id=new_id, ids=lambda b: b.attrs["_molecules"].attrs["_features"].cols["image-id"])
+    helpers = dict(registered_before=registered_before, registered_as=registered_as, kept=kept, new_keys=new_keys, new_id=new_id,
+                   rid=lambda b, given: given if given is not None else new_id(b), n_before=lambda b: len(b.attrs["_ghost_keys"]), ids=lambda b: b.attrs["_molecules"].attrs["_features"].cols["image-id"])
     replay = staticmethod(lambda ob, meta, model: _REPLAY_REG)
     ensures = {
-        "one_new_registration": "len(new_keys(self)) == 1 and self._images[new_id(self)] is image",
-        "new_id_was_unused": "not registered_before(self, new_id(self)) and (image_id is None or new_id(self) == image_id)",
-        "earlier_tomograms_kept": "kept(self)",
+        "registered_under_its_id": "registered_as(self, rid(self, image_id), image)",
+        "generated_id_was_unused": "image_id is not None or (len(new_keys(self)) == 1 and not registered_before(self, new_id(self)))",
+        "earlier_tomograms_kept": "kept(self) and len(self._images) == n_before(self) + 1",
         "earlier_molecules_keep_their_rows":
             "self._molecules._pos.shape[0] == old(self)._molecules._pos.shape[0] + molecules._pos.shape[0] and "
             "forall(lambda i: ids(self)[i] == old(self)._molecules._features.cols['image-id'][i] and "
             "all(self._molecules._pos[i, a] == old(self)._molecules._pos[i, a] for a in range(3)), (0, old(self)._molecules._pos.shape[0]))",
         "new_molecules_follow_with_the_new_id":
-            "forall(lambda j: ids(self)[old(self)._molecules._pos.shape[0] + j] == new_id(self) and "
+            "forall(lambda j: ids(self)[old(self)._molecules._pos.shape[0] + j] == rid(self, image_id) and "
             "all(self._molecules._pos[old(self)._molecules._pos.shape[0] + j, a] == molecules._pos[j, a] for a in range(3)), "
             "(0, molecules._pos.shape[0]))",
         "caller_molecules_untouched": "writes_to(molecules) == 0",
